@@ -201,6 +201,70 @@ func (c *Ctx) RuleSiblingRuleId() *Result {
 			res.ok(key, pos, "id = group 1, offset = ParseUint(group 2, 10, 8)")
 		}
 	}
+	// a function that is handed the chain offset uses it (and not the global of the single-target form)
+	for _, fn := range c.P.RepoFns {
+		if load.ShortPkg(load.FnPkgPath(fn)) != "cmd" || len(fn.Blocks) == 0 {
+			continue
+		}
+		for _, p := range fn.Params {
+			if b, ok := p.Type().Underlying().(*types.Basic); !ok || b.Kind() != types.Uint8 {
+				continue
+			}
+			res.Instances++
+			key := fmt.Sprintf("%s:parameter %s is used", load.FnName(fn), p.Name())
+			used := false
+			for _, r := range referrers(p) {
+				if _, dbg := r.(*ssa.DebugRef); !dbg {
+					used = true
+				}
+			}
+			if used {
+				res.ok(key, c.P.FnPos(fn), "the offset handed in is the one that is used")
+			} else {
+				res.bad(key, c.P.FnPos(fn), fmt.Sprintf("%s receives the chain offset in %s but never uses it: whatever it uses instead (the value parsed from the command argument) is 0 in an --all run, so every chained rule is read or written at the chain starter", load.FnName(fn), p.Name()))
+			}
+		}
+	}
+	// the argument is not cut before it is validated: in a command's entry functions nothing
+	// lossy (path.Base, strings.Trim*, ...) is applied to what is handed to the grammar
+	for _, cmd := range c.Commands().Commands {
+		var entries []*ssa.Function
+		for _, e := range cmd.Entries {
+			entries = append(entries, e)
+		}
+		entries = append(entries, cmd.ArgsInner...)
+		for _, fn := range entries {
+			if fn == nil || len(fn.Blocks) == 0 {
+				continue
+			}
+			allInstrs(fn, func(in ssa.Instruction) {
+				call, ok := in.(*ssa.Call)
+				if !ok {
+					return
+				}
+				f := staticCallee(&call.Call)
+				lossy := isFn(f, "path", "Base") || isFn(f, "path/filepath", "Base") || isFn(f, "path", "Dir") ||
+					(f != nil && objPkgPath(f) == "strings" && (strings.HasPrefix(f.Name(), "Trim") || f.Name() == "ToLower" || f.Name() == "ToUpper" || strings.HasPrefix(f.Name(), "Replace")))
+				if !lossy || len(call.Call.Args) == 0 {
+					return
+				}
+				// operand is an element of the cobra args slice
+				ld, ok := stripConv(call.Call.Args[0]).(*ssa.UnOp)
+				if !ok {
+					return
+				}
+				ia, ok := ld.X.(*ssa.IndexAddr)
+				if !ok {
+					return
+				}
+				if par, ok := ia.X.(*ssa.Parameter); !ok || par.Type().String() != "[]string" {
+					return
+				}
+				res.Instances++
+				res.bad(fmt.Sprintf("%s:%s applied to the argument", load.FnName(fn), qualName(f)), c.P.InstrPos(call), fmt.Sprintf("the command argument goes through %s before it is matched against the argument grammar: part of what the user typed is discarded unchecked (a directory, an ending), so shapes the statement says are rejected are accepted and resolved by guessing", qualName(f)))
+			})
+		}
+	}
 	// every uint8 chain-offset argument of a repository call comes from such a parse, the
 	// parsed global, a constant or a parameter
 	for _, fn := range c.P.RepoFns {
@@ -234,6 +298,16 @@ func (c *Ctx) RuleSiblingRuleId() *Result {
 				case *ssa.UnOp:
 					if fa, ok := x.X.(*ssa.FieldAddr); ok {
 						if _, isG := fa.X.(*ssa.Global); isG {
+							handedIn := ""
+							for _, q := range fn.Params {
+								if b, ok := q.Type().Underlying().(*types.Basic); ok && b.Kind() == types.Uint8 {
+									handedIn = q.Name()
+								}
+							}
+							if handedIn != "" {
+								res.bad(key, c.P.InstrPos(call), fmt.Sprintf("%s is handed the chain offset in its parameter %s but passes on the value parsed from the command argument: in an --all run that value is 0, so every chained rule is read or written at the chain starter", load.FnName(fn), handedIn))
+								break
+							}
 							res.ok(key, c.P.InstrPos(call), "the offset parsed from the command argument")
 							break
 						}
